@@ -31,7 +31,11 @@ impl Config {
     /// Write the given metadata.
     pub fn write_meta(&self) -> Result<()> {
         let f = fs::File::create(&self.meta_path)?;
+        #[cfg(anything_verif)]
+        crate::verif_crash_point("meta-created");
         serde_json::to_writer(f, &self.meta)?;
+        #[cfg(anything_verif)]
+        crate::verif_crash_point("meta-written");
         Ok(())
     }
 
